@@ -22,7 +22,7 @@ ASSUMPTIONS = [
 ]
 MONITORS = ("independent walk + lstat/readlink/inode of the workspace; audit-hook recorder proving zero filesystem mutations in "
             "workspace and cache during the second checkout; byte snapshot of the cache; link record checked through get_unused_links")
-REQUIRED_COUNTERS = ["priors_with_dangling_symlink", "priors_linked_into_another_store", "workspace_path_spelled_non_canonically", "priors_with_interrupted_copy_leftover", "dir_removed_between_checkouts", "priors_with_foreign_hardlinks", "sequences", "second_checkouts_audited", "relinks_checked", "files_link_type_checked", "cache_snapshots_compared",
+REQUIRED_COUNTERS = ["renamed_files_between_versions", "state_reused_after_close", "priors_with_dangling_symlink", "priors_linked_into_another_store", "workspace_path_spelled_non_canonically", "priors_with_interrupted_copy_leftover", "dir_removed_between_checkouts", "priors_with_foreign_hardlinks", "sequences", "second_checkouts_audited", "relinks_checked", "files_link_type_checked", "cache_snapshots_compared",
                      "link_records_checked", "pair/copy->hardlink", "pair/hardlink->symlink", "pair/symlink->copy", "pair/copy->symlink",
                      "pair/hardlink->copy", "pair/symlink->hardlink", "store/local", "store/base", "single_file_cases"]
 
@@ -73,6 +73,14 @@ def run_shard(ctx):
                     res.count("thousand_file_checkouts")
                 O, _e2, _ops = gen.mutate_tree(rng, T, (), pool, kind_swaps=False)
                 O = colab.force_kind_agreement(O, T) or dict(T)
+                if rng.random() < 0.3:
+                    # the other tree holds some of the target's contents under another name (a file was renamed between the two versions)
+                    for k_ in sorted(T):
+                        if T[k_] and k_ in O and O[k_] == T[k_] and rng.random() < 0.4:
+                            nk_ = (*k_[:-1], k_[-1] + "-old-name")
+                            if nk_ not in T and nk_ not in O:
+                                O[nk_] = O.pop(k_)
+                                res.count("renamed_files_between_versions")
                 tobj = colab.populate(odb, d, T, "tsrc")
                 oobj = colab.populate(odb, d, O, "osrc")
             ws = os.path.join(d, "ws", "out")
@@ -149,6 +157,10 @@ def run_shard(ctx):
             if prior_files != T or existing != configured:
                 res.nontrivial(sorted(T.items()), sorted(prior_files.items()), existing, configured, cls, use_state)
             res.sample(cfg)
+            if state is not None and rng.random() < 0.15:
+                # the caller closed the hash state earlier and keeps using the object (it reconnects on demand)
+                state.close()
+                res.count("state_reused_after_close")
             cache_before = store_snapshot(croot)
             target = load(odb, tobj.hash_info)
 
@@ -170,6 +182,28 @@ def run_shard(ctx):
                     return False
                 return True
 
+            def check_links(when):
+                want = "copy" if configured == "reflink" else configured
+                for k, data in T.items():
+                    p = os.path.join(ws, *k) if k else ws
+                    res.count("files_link_type_checked")
+                    typ, info = colab.link_type_of(p, croot)
+                    cp = cache_path(data)
+                    ok = True
+                    if want == "copy":
+                        ok = typ == "copy"
+                    elif want == "symlink":
+                        ok = typ == "symlink" and info == cp
+                    elif want == "hardlink":
+                        if len(data) == 0:
+                            ok = typ != "symlink"
+                        else:
+                            ok = typ == "hardlink" and info == os.lstat(cp).st_ino
+                    if not ok:
+                        res.violation(f"wrong-link-type/{existing}->{want}" + ("" if when == "relink" else "/" + when), f"{'/'.join(k)} is {typ} after {when}, configured {want}", case=case,
+                                      detail={**cfg, "file": "/".join(k), "len": len(data)})
+                        break
+
             # 1. forced checkout (or, in a third of the cases, a relinking checkout straight from the prior state)
             direct_relink = rng.random() < 0.3
             cfg["direct_relink"] = direct_relink
@@ -178,6 +212,7 @@ def run_shard(ctx):
                 checkout(wsp, fs, target, odb, force=True, relink=True, state=state)
                 if not check_bytes("relink-from-prior"):
                     return
+                check_links("relink-from-prior")
             else:
                 old = None
                 if rng.random() < 0.3 and os.path.lexists(ws) and not dangling:
@@ -203,26 +238,7 @@ def run_shard(ctx):
             checkout(wsp, fs, target, odb, force=True, relink=True, state=state)
             res.count("relinks_checked")
             if check_bytes("relink"):
-                want = "copy" if configured == "reflink" else configured
-                for k, data in T.items():
-                    p = os.path.join(ws, *k) if k else ws
-                    res.count("files_link_type_checked")
-                    typ, info = colab.link_type_of(p, croot)
-                    cp = cache_path(data)
-                    ok = True
-                    if want == "copy":
-                        ok = typ == "copy"
-                    elif want == "symlink":
-                        ok = typ == "symlink" and info == cp
-                    elif want == "hardlink":
-                        if len(data) == 0:
-                            ok = typ != "symlink"
-                        else:
-                            ok = typ == "hardlink" and info == os.lstat(cp).st_ino
-                    if not ok:
-                        res.violation(f"wrong-link-type/{existing}->{want}", f"{'/'.join(k)} is {typ} after relink, configured {want}", case=case,
-                                      detail={**cfg, "file": "/".join(k), "len": len(data)})
-                        break
+                check_links("relink")
             if state is not None:
                 check_link_record(res, state, ws, fs, case, cfg, "relink")
             # 4. a second relinking checkout keeps bytes and types
